@@ -234,7 +234,9 @@ N_Cancel(i) ==
    rleader |-> rleader, term |-> term, flag |-> flag, sub |-> sub, evq |-> evq, lp |-> lp, crashed |-> crashed]
 
 \* Raft leadership moves to t (clean transfer); both servers are notified
-G_Transfer(t) == ~crashed /\ t \in Servers /\ t # rleader /\ Len(evq[t]) < 2 /\ Len(evq[rleader]) < 2
+\* the notification channel holds one entry besides the one the loop is working on
+Pending(s) == Len(evq[s]) + (IF lp[s].w THEN 1 ELSE 0)
+G_Transfer(t) == ~crashed /\ t \in Servers /\ t # rleader /\ Pending(t) < 2 /\ Pending(rleader) < 2
 N_Transfer(t) ==
   [inst |-> inst, log |-> log, applied |-> applied, rleader |-> t, term |-> term + 1, flag |-> flag, sub |-> sub,
    evq |-> [evq EXCEPT ![rleader] = Append(@, FALSE), ![t] = Append(@, TRUE)], lp |-> lp, crashed |-> crashed]
